@@ -226,10 +226,10 @@ Fixpoint bump (p : vec) (j : nat) (d : Q) : vec :=
   end.
 Definition zerov (n : nat) : vec := repeat 0 n.
 Definition gradq (t : vec -> Q) (h : Q) (p : vec) : vec :=
-  map (fun j => (t (bump p j h) - t (bump p j (- h))) / (2 * h)) (seq 0 (length p)).
+  map (fun j => Qred ((t (bump p j h) - t (bump p j (- h))) / (2 * h))) (seq 0 (length p)).
 (* precision matrix -Hessian and gradient at 0 of a quadratic t in n variables, from values on the lattice h * {0,1,2}^n *)
 Definition hessq (t : vec -> Q) (h : Q) (n : nat) : list vec :=
-  map (fun j => map (fun k => - (t (bump (bump (zerov n) j h) k h) - t (bump (zerov n) j h) - t (bump (zerov n) k h) + t (zerov n)) / (h * h))
+  map (fun j => map (fun k => Qred (- (t (bump (bump (zerov n) j h) k h) - t (bump (zerov n) j h) - t (bump (zerov n) k h) + t (zerov n)) / (h * h)))
                     (seq 0 n)) (seq 0 n).
 Definition grad0q (t : vec -> Q) (h : Q) (n : nat) : vec := gradq t h (zerov n).
 (* elimination without pivoting (the matrices are symmetric positive definite): rows paired with right-hand sides *)
@@ -237,13 +237,25 @@ Fixpoint qsolve (n : nat) (rows : list (vec * Q)) : vec :=
   match n, rows with
   | S n', (a :: r, b) :: rest =>
       let red := map (fun row => match row with
-                                 | (c :: r', b') => (map (fun xy => fst xy - (c / a) * snd xy) (combine r' r), b' - (c / a) * b)
+                                 | (c :: r', b') => (map (fun xy => Qred (fst xy - (c / a) * snd xy)) (combine r' r), Qred (b' - (c / a) * b))
                                  | ([], b') => ([], b')
                                  end) rest in
       let xs := qsolve n' red in
-      ((b - fold_left (fun acc xy => acc + fst xy * snd xy) (combine r xs) 0) / a) :: xs
+      Qred ((b - fold_left (fun acc xy => acc + fst xy * snd xy) (combine r xs) 0) / a) :: xs
   | _, _ => []
   end.
+
+(* scale-free closeness of vectors: max |a_i - b_i| <= tol * (max |a_i| + max |b_i|) *)
+Definition vmaxabs (v : vec) : Q := fold_left (fun m x => if Qle_bool m (Qabs x) then Qabs x else m) v 0.
+Fixpoint vsub (a b : vec) : vec := match a, b with x :: a', y :: b' => (x - y) :: vsub a' b' | _, _ => [] end.
+Definition vclose (tol : Q) (a b : vec) : bool :=
+  Nat.eqb (length a) (length b) && Qle_bool (vmaxabs (vsub a b)) (tol * (vmaxabs a + vmaxabs b)).
+Definition vlclose (tol : Q) := all2 (vclose tol).
+Definition tol7 : Q := 1 # 10000000.
+(* the model's own (exact, rational) draw m and the float the implementation returned: when they agree to 1e-7 relative the
+   run continues from the implementation's value (a checked certificate: keeps the rationals at binary64 size), otherwise
+   from the model's -- every later comparison then shows the disagreement *)
+Definition adopt (m obs : vec) : vec := if vclose tol7 m obs then obs else m.
 
 Record sst := mkS { s_kind : kind; s_pt : vec; s_cache : Q; s_grad : vec; s_scale : Q; s_acc : list Z;
                     s_tunes : list (nat * nat * nat); s_init : vec }.
@@ -262,10 +274,10 @@ Definition ctrans (_ : nat) (t : vec -> Q) (s : sst) (r : rnd) : sst :=
   | KConj =>                          (* t(p) = -rate * p + (terms cancelling in differences): rate = (t[p0] - t[2 p0]) / p0 *)
       let p0 := match s_pt s with x :: _ => x | [] => 1 end in
       let rate := (t [p0] - t [2 * p0]) / p0 in
-      set_pt s [match r_vec r with z :: _ => z | [] => 0 end / rate] (s_cache s) 1
+      set_pt s (adopt [r_logu r / rate] (r_vec r)) (s_cache s) 1          (* r_logu carries the scripted standard variate *)
   | KLrto =>                          (* zero noise: the minimiser of the stacked least-squares problem = conditional mean *)
       let n := length (s_pt s) in
-      set_pt s (qsolve n (combine (hessq t (s_scale s) n) (grad0q t (s_scale s) n))) (s_cache s) 1
+      set_pt s (adopt (qsolve n (combine (hessq t (s_scale s) n) (grad0q t (s_scale s) n))) (r_vec r)) (s_cache s) 1
   | KDirect =>                        (* test distribution: draw = z + (logd(1..1) - logd(0..0)) of the target it is *)
       let p0 := map (fun _ => 0) (s_pt s) in
       let p1 := map (fun _ => 1) (s_pt s) in
@@ -408,12 +420,6 @@ Fixpoint combo (c : list Z) (v : list Q) : Q :=
 Fixpoint combo_abs (c : list Z) (v : list Q) : Q :=
   match c, v with k :: c', x :: v' => Qabs (inject_Z k * x) + combo_abs c' v' | _, _ => 0 end.
 
-(* scale-free closeness of vectors: max |a_i - b_i| <= tol * (max |a_i| + max |b_i|) *)
-Definition vmaxabs (v : vec) : Q := fold_left (fun m x => if Qle_bool m (Qabs x) then Qabs x else m) v 0.
-Fixpoint vsub (a b : vec) : vec := match a, b with x :: a', y :: b' => (x - y) :: vsub a' b' | _, _ => [] end.
-Definition vclose (tol : Q) (a b : vec) : bool :=
-  Nat.eqb (length a) (length b) && Qle_bool (vmaxabs (vsub a b)) (tol * (vmaxabs a + vmaxabs b)).
-Definition vlclose (tol : Q) := all2 (vclose tol).
 
 (* one step() call of a real sampler: block; current_samples and start point (close: the model computes the Conjugate /
    LinearRTO draws itself, in exact arithmetic); the target through integer combinations of its values at the probe points;
